@@ -43,6 +43,12 @@ package preprocessor
 // while it is alive and its net contribution is 0 once it has returned, on every exit path.
 //@ func (*preprocessor).worker
 //@   property C17
+//@   local nIn int = 0
+//@   local nOut int = 0
+//@   local inHand *models.Item = nil
+//@   after selrecv(inputCh)#1: nIn = nIn + ite(opOk, 1, 0); inHand = seed
+//@   after selsend(outputCh)#1: nOut = nOut + 1
+//@   loop for invariant [forwarded-once] @C01 nIn == nOut // C01: each stage forwards the seed exactly once (a received seed is sent on exactly once before the next one is taken; on stop the worker returns instead)
 //@   attr assume-pre preprocess
 //@   mode math
 //@   attr noreach stats.PreprocessorRoutinesIncr,stats.PreprocessorRoutinesDecr
